@@ -4,7 +4,7 @@
    rank equals the Baker-Norine rank and both modes agree, with no hypothesis left. The conditional statement is kept as well. *)
 From Coq Require Import ZArith List Bool Permutation.
 Import ListNotations.
-From CF Require Import ZSum ListAux Defs Core RankLink RiemannRoch RRLink.
+From CF Require Import ZSum ListAux Defs Core RankLink RiemannRoch RRLink TermAll.
 Open Scope Z_scope.
 
 (* plain mode: -1 exactly when unwinnable, otherwise the largest k with D - E winnable for every effective E of degree k *)
@@ -60,6 +60,11 @@ Proof. intros g Hwf Hc Hn k1 f1 k2 f2 D r1 r2 HL H1 H2. apply (is_rank_unique g 
   - eapply rank_plain_spec; eauto.
   - eapply rank_opt_spec; eauto. Qed.
 Print Assumptions C03_modes_agree.
+(* both modes terminate on connected multigraphs *)
+Theorem C03_terminates : forall g, wfb g = true -> connected_b g = true -> (0 < nv g)%nat -> forall D, length D = nv g ->
+  (exists kfuel fuel r, rank_plain kfuel fuel g D = Done r) /\ (exists kfuel fuel r, rank_opt kfuel fuel g D = Done r).
+Proof. intros g Hwf Hc Hn D HL. split; [now apply rank_plain_terminates|now apply rank_opt_terminates]. Qed.
+Print Assumptions C03_terminates.
 (* regression statement for the repaired defect d3: returning r(K-D) uncorrected is wrong *)
 Definition K3x2 : graph := [[0;2;2];[2;0;2];[2;2;0]].
 Theorem rank_opt_uncorrected_refuted : exists g D, wfb g = true /\ connected_b g = true /\
